@@ -526,6 +526,8 @@ def _dec(enc):
 def _spec_from_json(s):
   if isinstance(s, str):
     return s
+  if s[0] == 'alias':
+    return ('alias', int(s[1]))
   return (s[0], tuple(_spec_from_json(c) for c in s[1]))
 
 
@@ -580,6 +582,7 @@ def _unit(args):
     fn(st, *a)
     st.count('cases_' + name, st.evaluations - before)
   for spec in specs:
+    start = st.evaluations
     if kind == 'single':
       timed('single_set', singles, spec, opt['values'])
       timed('set_to_current', check_set_to_current, spec)
@@ -592,6 +595,8 @@ def _unit(args):
     elif kind == 'chain':
       timed('chain%d' % opt['length'], chains, spec, opt['length'],
             opt['values'], opt['forms'])
+    if spec != EMPTY and te.n_aliases(spec):
+      st.count('cases_on_aliased_trees', st.evaluations - start)
   if specs:
     st.sample({'driver': kind, 'tree': build(specs[0]) if specs[0] != EMPTY
                else EMPTY, 'options': opt,
@@ -649,8 +654,39 @@ def run(ctx):
   plan.append(('single', look, {'values': VALUES_SPINE, 'multi': 2}))
   plan.append(('chain', look[:200] if quick else look,
                {'length': 2, 'values': VALUES_CHAIN, 'forms': two_forms}))
+  # aliased sub-trees: the same dict/list/tuple/ndarray object reachable through
+  # more than one path (siblings, cousins, an uncle; up to 3 occurrences).  The
+  # tree is a value: every law holds path by path, whatever objects are shared.
+  alias1 = te.alias_specs(1)                          # [A, A] with A an ndarray
+  alias2 = te.alias_specs(2)                          # every aliased depth<=2
+  alias_sh = te.alias_specs(2, leaf_kinds=('int',))   # container aliases only
+  alias_spine = te.alias_specs(3, max_children=(2, 1, 1))
+  alias_wide = te.alias_specs(2, max_children=(3, 2), leaf_kinds=('int',))
+  alias_rot = ([te.rotated(s, i % 3) for i, s in enumerate(alias_sh)]
+               if quick else
+               sorted({te.rotated(s, o) for s in alias_sh for o in range(3)},
+                      key=repr))
+  alias_look = sorted({te.with_lookalike_keys(s) for s in alias_sh + alias1
+                       if te.has_dict(s)}, key=repr)
+  alias_deep_sh = [] if quick else te.alias_specs(
+      3, max_children=(2, 1, 1), leaf_kinds=('int',))
+  plan += [
+      ('single', alias2,
+       {'values': VALUES_SPINE if quick else VALUES_FULL,
+        'multi': 0 if quick else 2}),
+      ('single', alias_sh + alias1 + alias_look,
+       {'values': VALUES_FULL, 'multi': 2 if quick else 3}),
+      ('single', alias_spine + alias_wide,
+       {'values': VALUES_SPINE, 'multi': 0, 'one_key': not quick}),
+      ('chain', alias_rot + alias1 + alias_look + [
+          te.rotated(s, i % 3) for i, s in enumerate(alias_deep_sh)],
+       {'length': 2, 'values': VALUES_CHAIN,
+        'forms': two_forms if quick else all_forms}),
+  ]
+  n_alias_single = len(alias2) + len(alias_sh + alias1 + alias_look) + len(
+      alias_spine + alias_wide)
   if quick:
-    plan.append(('chain', [EMPTY] + d1, {
+    plan.append(('chain', [EMPTY] + d1 + alias1, {
         'length': 2, 'values': VALUES_CHAIN,
         'forms': ('update-pairs', 'update-dict')}))
     deep = []
@@ -681,7 +717,22 @@ def run(ctx):
       '(values int, nested dict; step 2 ranges over the keys of the tree after '
       'step 1) as chained copy_and_set and as one multi-key copy_and_set on '
       'every depth<=2 shape with leaf kinds int/str/ndarray assigned '
-      'cyclically%s (%d trees)%s. Cases are '
+      'cyclically%s (%d trees)%s. '
+      'Aliased sub-trees (the same dict/list/tuple/ndarray object reachable '
+      'through more than one path; the oracle treats the tree as a value, so '
+      'every law above holds path by path): every tree of depth <= 2 above in '
+      'which one or more children are replaced, in every possible way, by a '
+      'reference to a container or ndarray object completed earlier in '
+      'depth-first order, value depth still <= 2 (%d trees: shared siblings, '
+      '1-3 aliases), the same for the depth-3 two-chain trees (%d: shared '
+      'cousins / uncle) and for int-leaved depth-2 trees whose root has <= 3 '
+      'children (%d: up to 3 occurrences of one object); on all of these every '
+      'single set in every spelling and update form, set-to-current, every '
+      'read, keys/values/items/len and apply (values %s; one-key tuple '
+      'conventions%s; multi-key reads on the %d aliased trees with int leaves '
+      'or depth 1 incl. reserved-lookalike keys%s); every sequence of 2 sets '
+      '(%s) on the %d aliased depth<=2 shapes with leaf kinds assigned '
+      'cyclically (%s), depth 1 and lookalike keys%s. Cases are '
       'distinct by construction; non-trivial = at least one leaf or one set.'
       % (len(d2), len(spine3),
          '' if quick else '; single sets, reads, iteration and apply also on '
@@ -697,7 +748,18 @@ def run(ctx):
          ' (there also as copy_and_update(pairs/dict)) and on all %d trees of '
          'depth <= 2; every sequence of 3 sets on the %d trees of depth <= 1 '
          'or of depth <= 2 with <= 1 child per node'
-         % (len(d2), len(set(d1 + narrow2)))))
+         % (len(d2), len(set(d1 + narrow2))),
+         len(alias2), len(alias_spine), len(alias_wide),
+         'int, dict' if quick else 'all six on depth <= 2, else int, dict',
+         ' on depth <= 2' if quick else '',
+         len(alias_sh + alias1 + alias_look),
+         '' if quick else ' and on every aliased depth<=2 tree',
+         'chained / multi-key copy_and_set; copy_and_update on depth 1'
+         if quick else 'all four forms',
+         len(alias_rot + alias1 + alias_look),
+         'one starting offset per shape' if quick else 'all three offsets',
+         '' if quick else ' and on the %d int-shaped aliased depth-3 two-chain '
+         'trees' % len(alias_deep_sh)))
   ctx.assumptions += [
       'root of the viewed data is a dict/list/tuple or the empty view '
       '(statement: "any nested mapping/sequence"); a bare scalar/ndarray root '
@@ -709,6 +771,9 @@ def run(ctx):
       'error kinds are not compared, only "raises" versus "returns"',
       'identity of untouched sub-objects is required below the root only '
       '(docstring: "shallow copies the nodes along the path")',
+      'aliases refer to completed objects only: no tree contains itself '
+      '(cyclic data is outside "nested mapping/sequence"); the empty tuple is '
+      'not an alias target (CPython has a single () object anyway)',
   ]
   units = []
   for kind, trees, opt in plan:
@@ -718,6 +783,7 @@ def run(ctx):
     units += [(kind, trees[i:i + per], opt) for i in range(0, len(trees), per)]
   ctx.pmap(_unit, ctx.shuffled(units))
   ctx.notes['trees_single'] = len(single_specs) + len(deep)
+  ctx.notes['trees_single_aliased'] = n_alias_single
   ctx.notes['trees_chain'] = sum(len(t) for k, t, _ in plan if k == 'chain')
 
 
